@@ -410,3 +410,79 @@ Section WithData.
       apply in_positions in Hp as [? ?]. eapply Hk; eauto.
   Qed.
 End WithData.
+
+(* ---------- is_empty: `start >= end` says exactly "no cells" for every chain-built shape ---------- *)
+Definition EndOk (sh : shape) : Prop :=
+  sh_start sh < sh_end sh <-> (0 < sh_height sh /\ 0 < sh_width sh).
+
+Lemma endok_root H W : EndOk (of_size H W).
+Proof. unfold EndOk, of_size; cbn. nia. Qed.
+
+Lemma endok_transpose sh : EndOk sh -> EndOk (transpose sh).
+Proof. unfold EndOk, transpose; cbn. tauto. Qed.
+
+Lemma endok_view H W sh w rows cols :
+  Rep H W sh w -> valid_bounds (w_h w) rows -> valid_bounds (w_w w) cols -> EndOk (view sh rows cols).
+Proof.
+  intros (Hh & Hw & Hrep) Hr Hc. unfold view, EndOk.
+  destruct cols as [[cs ce]|]; [|cbn; lia].
+  destruct rows as [[rs re]|]; [|cbn; lia].
+  cbn [valid_bounds] in *. cbn [sh_start sh_end sh_height sh_width]. unfold offset.
+  destruct Hrep as [[H0 W0]|[Hst Hrest]]; [lia|].
+  destruct (w_t w); destruct Hrest as (Hrs & Hcs & HH & HW); rewrite Hrs, Hcs; split; intros; try nia.
+Qed.
+
+Lemma endok_op H W sh w o : (Z.of_nat (Nat.max H W) <= i64_max)%Z ->
+  op_in o = true -> Rep H W sh w -> EndOk sh -> EndOk (apply_op sh o).
+Proof.
+  intros Hmax Ho Hrep He. destruct o as [rs cs|]; cbn [apply_op].
+  - cbn in Ho. apply andb_true_iff in Ho as [Hr Hc].
+    pose proof (rep_dims _ _ _ _ Hrep) as [Hdh Hdw].
+    pose proof Hrep as (Hh & Hw & Hrest). rewrite Hh, Hw.
+    rewrite !resolve_py by (assumption || lia).
+    eapply endok_view; [exact Hrep| |]; apply py_resolve_valid.
+  - now apply endok_transpose.
+Qed.
+
+Theorem endok_chain H W ops : (Z.of_nat (Nat.max H W) <= i64_max)%Z -> forall sh w,
+  forallb op_in ops = true -> Rep H W sh w -> EndOk sh -> EndOk (apply_chain sh ops).
+Proof.
+  intros Hmax. induction ops as [|o ops IH]; intros sh w Hin Hrep He; cbn in *; [exact He|].
+  apply andb_true_iff in Hin as [Ho Hin].
+  apply (IH (apply_op sh o) (win_op w o)); [exact Hin|now apply rep_op|now apply (endok_op H W sh w)].
+Qed.
+
+Theorem is_empty_spec H W ops : (Z.of_nat (Nat.max H W) <= i64_max)%Z -> forallb op_in ops = true ->
+  let sh := apply_chain (of_size H W) ops in
+  is_empty sh = (sh_height sh =? 0) || (sh_width sh =? 0).
+Proof.
+  intros Hmax Hin sh.
+  pose proof (endok_chain H W ops Hmax (of_size H W) (win_root H W) Hin (rep_root H W) (endok_root H W)) as He.
+  fold sh in He. unfold EndOk in He. unfold is_empty.
+  destruct (Nat.leb_spec (sh_end sh) (sh_start sh)), (Nat.eqb_spec (sh_height sh) 0), (Nat.eqb_spec (sh_width sh) 0);
+    cbn [orb]; try reflexivity; lia.
+Qed.
+
+(* ---------- insert with the usize index arithmetic ---------- *)
+Section InsertAt.
+  Context {A : Type}.
+  Lemma insert_at_small (sh : shape) (data : list A) (r c : N) items :
+    (r * N.of_nat (sh_width sh) + c < 18446744073709551615)%N ->
+    insert_at sh data r c items = insert sh data (N.to_nat r) (N.to_nat c) items.
+  Proof.
+    intros Hb. unfold insert_at, insert.
+    destruct (N.leb_spec 18446744073709551616 (r * N.of_nat (sh_width sh) + c)); [lia|].
+    destruct (N.eqb_spec (r * N.of_nat (sh_width sh) + c) 18446744073709551615); [lia|]. cbn [andb].
+    assert (E : N.to_nat (r * N.of_nat (sh_width sh) + c) = N.to_nat r * sh_width sh + N.to_nat c) by lia.
+    destruct (N.leb_spec (N.of_nat (length (mut_offsets sh (length data)))) (r * N.of_nat (sh_width sh) + c)).
+    - rewrite skipn_all2 by lia. reflexivity.
+    - rewrite E. reflexivity.
+  Qed.
+
+  Lemma insert_at_overflow (sh : shape) (data : list A) (r c : N) items :
+    (18446744073709551616 <= r * N.of_nat (sh_width sh) + c)%N -> insert_at sh data r c items = None.
+  Proof.
+    intros Hb. unfold insert_at.
+    destruct (N.leb_spec 18446744073709551616 (r * N.of_nat (sh_width sh) + c)); [reflexivity|lia].
+  Qed.
+End InsertAt.
